@@ -28,7 +28,7 @@ RULE = ("valid definitions (1-3 states, 1-3 controls, 1-3 calibrations, 1-2 sens
         "map missing/extra/wrong key/map without calibration, process noise one missing/all missing/negative/for a "
         "state/for undeclared symbol/keyed by str, sensor model depends on control/undeclared symbol, sensor noise "
         "sensor missing/extra sensor/reading missing/extra reading/wrong reading name; wrong keys also as fragments "
-        "of the right name} at every applicable position "
+        "of the right name and as a symbol of the same name with other sympy assumptions} at every applicable position "
         "(pairs of faults of different classes in the thorough tier); observed: exception or return of ui.Model, "
         "python.compile, python.compile_ekf, cpp.compile, cpp.compile_ekf and existence of the C++ output files; "
         "non-trivial = injected fault case (not the fault-free baseline); distinct = (definition, fault id)")
@@ -174,6 +174,21 @@ def faults(a):
                 v = x.process_noise.pop(c)
                 x.process_noise[sympy.Symbol(f)] = v
             yield f"pnoise:fragment-key:{c}:{f}", PN, "pnoise-for-undeclared", pfrag
+    for c in ct:
+        # noise given for a different symbol that merely prints like the control (other sympy assumptions)
+        twin = sympy.Symbol(str(c)) if c.assumptions0 != sympy.Symbol(str(c)).assumptions0 else sympy.Symbol(str(c), positive=True)
+        if twin != c:
+            def pnamesake(x, c=c, twin=twin):
+                v = x.process_noise.pop(c)
+                x.process_noise[twin] = v
+            yield f"pnoise:namesake-key:{c}", PN, "pnoise-for-undeclared", pnamesake
+    for k in cal:
+        twin = sympy.Symbol(str(k)) if k.assumptions0 != sympy.Symbol(str(k)).assumptions0 else sympy.Symbol(str(k), positive=True)
+        if twin != k:
+            def cnamesake(x, k=k, twin=twin):
+                v = x.calibration_map.pop(k)
+                x.calibration_map[twin] = v
+            yield f"calmap:namesake-key:{k}", CAL, "calmap-wrong-key", cnamesake
     if ct:
         yield "pnoise:all-missing", PN, "pnoise-missing", lambda x: x.process_noise.clear()
     yield "pnoise:for-a-state", PN, "pnoise-for-state", lambda x: x.process_noise.__setitem__(st[0], 1.0)
